@@ -32,6 +32,13 @@ const (
 	c17mFOrder = "C17-merge-sibling-prefix-order" // ThreeWayJsonDiffer orders the two diff streams with bytes.Compare of the location keys, which is not the order the differs emit (children of member "a" come before sibling "ab" but compare greater): a both-sided edit of the later sibling is taken from one side without conflict
 )
 
+// Findings of the document half that also surface through MergeJSON (it diffs stored documents
+// with the same cursors and applies the right side's changes with SetWithKey/RemoveWithKey).
+const (
+	c17mFArrayEdge  = "C17-chunk-ends-before-first-element"
+	c17mFRemoveEdge = "C17-remove-first-at-chunk-end"
+)
+
 func c17mExcluded(id string) bool {
 	if vh.OpenFinding("C17", id) {
 		return true
@@ -450,6 +457,64 @@ func c17mDecode(ctx context.Context, w sql.JSONWrapper) (interface{}, error) {
 	return out, nil
 }
 
+// c17mLevel1Keys returns the keys of the address-map nodes directly above the leaf chunks of a
+// stored document (nil for a single-chunk document).
+func c17mLevel1Keys(ctx context.Context, ns tree.NodeStore, root *tree.Node) [][]byte {
+	if root.Level() == 0 {
+		return nil
+	}
+	var out [][]byte
+	_ = tree.WalkNodes(ctx, root, ns, func(ctx context.Context, n *tree.Node) error {
+		if n.Level() == 1 {
+			for i := 0; i < n.Count(); i++ {
+				out = append(out, append([]byte{}, n.GetKey(i)...))
+			}
+		}
+		return nil
+	})
+	return out
+}
+
+// c17mStoredHazards inspects the stored form of v for the chunk layouts of two findings of the
+// document half (location key format: json_location.go — state byte, then 0xFF+name per member
+// and 0xFE+varint per index; state 0 = start of value, 3 = end of value).
+func c17mStoredHazards(ctx context.Context, ns tree.NodeStore, v interface{}) (arrayEdge bool, chunkEnds map[string]bool) {
+	root, err := tree.SerializeJsonToAddr(ctx, ns, types.JSONDocument{Val: c17mCopy(v)})
+	if err != nil {
+		return false, nil
+	}
+	chunkEnds = map[string]bool{}
+	for _, k := range c17mLevel1Keys(ctx, ns, root) {
+		if len(k) >= 3 && k[0] == 0 && k[len(k)-2] == 0xFE && k[len(k)-1] == 0 {
+			arrayEdge = true
+		}
+		if k[0] == 3 {
+			chunkEnds[string(k[1:])] = true
+		}
+	}
+	return arrayEdge, chunkEnds
+}
+
+// c17mFirstMemberEndsChunk reports whether some first member (of >= 2) of an object of v, reached
+// through objects only, has a value ending exactly at a leaf chunk boundary of v's stored form.
+func c17mFirstMemberEndsChunk(v interface{}, prefix []byte, chunkEnds map[string]bool) bool {
+	m, ok := v.(map[string]interface{})
+	if !ok {
+		return false
+	}
+	ks := c17mSortedKeys(m)
+	for i, k := range ks {
+		key := append(append(append([]byte{}, prefix...), 0xFF), k...)
+		if i == 0 && len(ks) >= 2 && chunkEnds[string(key)] {
+			return true
+		}
+		if c17mFirstMemberEndsChunk(m[k], key, chunkEnds) {
+			return true
+		}
+	}
+	return false
+}
+
 type c17mOutcome struct {
 	doc      interface{}
 	conflict bool
@@ -629,6 +694,34 @@ func c17mCase(rt *rapid.T, rec *vh.Recorder) (kind, msg string) {
 		right = c17mCopy(base)
 		editsR = []string{"(dropped)"}
 	}
+	if repr[0] || repr[1] || repr[2] {
+		ctx := context.Background()
+		ns := tree.NewTestNodeStore()
+		edge, firstEnds := false, false
+		for i, v := range []interface{}{base, left, right} {
+			if !repr[i] {
+				continue
+			}
+			e, ends := c17mStoredHazards(ctx, ns, v)
+			edge = edge || e
+			firstEnds = firstEnds || c17mFirstMemberEndsChunk(v, nil, ends)
+		}
+		ex := ""
+		if edge && c17mExcluded(c17mFArrayEdge) {
+			ex = c17mFArrayEdge
+		} else if firstEnds && c17mExcluded(c17mFRemoveEdge) {
+			ex = c17mFRemoveEdge
+		}
+		if ex != "" {
+			// the stored form of an input has the chunk layout of an open finding of the
+			// document half: hand the documents over in memory instead
+			classes = append(classes, "excluded:"+ex)
+			repr = [3]bool{false, false, false}
+		}
+		if edge {
+			classes = append(classes, "input_has_array_edge_chunk")
+		}
+	}
 	_, wantConflict := c17mMerge(base, left, right, "$")
 	if wantConflict != nil {
 		classes = append(classes, "conflict")
@@ -679,7 +772,7 @@ func c17mPinned(t *testing.T) {
 func TestVerif_C17(t *testing.T) {
 	rec := vh.NewRecorder("C17", "merge", "exploration", c17mRule,
 		"numbers are float64 and member names come from a fixed alphabet (no control characters)",
-		"each side makes at most one element edit per array per case step and tags its new values with its side, so that two sides never make equal element edits of the same array unless the whole edit is identical (the documented rule 'both sides modify the same array to different values => conflict' is then unambiguous)")
+		"new values are tagged with the side that wrote them, so two sides never make equal element edits of the same array unless the whole edit is identical (the documented rule 'both sides modify the same array to different values => conflict' is then unambiguous: arrays are atomic in the model)")
 	defer rec.Write(t)
 	t.Run("pinned", c17mPinned)
 	vh.Check(t, "merge", 3000, 12000, func(rt *rapid.T) {
